@@ -450,7 +450,7 @@ class TorrentFile(MetaFile, ProgMixin):
         kws = {
             "progress": self.progress,
             "progress_bar": None,
-            "align": self.align,
+            "align": self.align and not os.path.isfile(self.path),
         }
 
         if self.progress == 2:
@@ -480,10 +480,7 @@ class TorrentFile(MetaFile, ProgMixin):
                     "path":
                     os.path.relpath(path, self.path).split(os.sep),
                 })
-                if filesize < self.piece_length:
-                    remainder = self.piece_length - filesize
-                else:
-                    remainder = filesize % self.piece_length
+                remainder = -filesize % self.piece_length
                 if remainder:
                     info["files"].append({
                         "attr": "p",
